@@ -7,6 +7,6 @@ open LPVerif.ArgFlow
 def kernprofArgFlow : List Stmt := [.callMain, .defaultArgs, .preParse, .parseArgs, .appendPost, .scriptFromModule, .defaultOutfile, .setArgv]
 
 /-- source lines of the statements (for the reader) -/
-def kernprofArgFlowLines : List Nat := [340, 360, 365, 422, 431, 432, 435, 439]
+def kernprofArgFlowLines : List Nat := [353, 373, 378, 435, 444, 445, 448, 452]
 
 end LPVerif.Generated
